@@ -25,6 +25,9 @@ def run(tier, seed):
     concs = sorted(set([250, 300, 340, 360, 369.41, 375, 400, 450, 500, 600, 800, 1200, 1999, 2000, 2500] + near + [545 + 0.25 * i for i in range(45)])) if tier == "thorough" \
         else sorted(set([250, 369.41, 380, 450, 900, 2000, 2500] + near))
     fc = C.pmap(R.fco2_worker, [(c, concs, kind) for c in L.CROPS for kind in ("init", "later")])
+    # a reference concentration other than the default (user's CO2 object), lattice from below the reference to above the default reference
+    refc = [300, 320, 330, 331, 332, 335, 340, 350, 360, 369.41, 372, 380, 400, 450, 549, 551, 700]
+    fc += C.pmap(R.fco2_worker, [(c, refc, (330.0, later)) for c in (L.CROPS if tier == "thorough" else rnd.sample(L.CROPS, 6) + ["Wheat", "Default"]) for later in (False, True)])
     sweeps += [s for s in fc if s is not None]
     verdicts, tstats = tlc.validate_docs(sweeps, "Response", lambda s: len(s["pts"]))
     V = C.Verdicts(PROP)
